@@ -139,11 +139,11 @@ theorem wf_step {s : State σ κ} (op : Op σ) (h : WF c s) : WF c (step c s op)
       · rw [hf.1]; exact h
       · rw [he]; exact wf_saveSub c h _ _
     · intro s f t e amt h
-      rcases execTransfer_cases c s f t e amt with hf | ⟨_, _, _, he⟩
+      rcases execTransfer_cases c s f t e amt with hf | ⟨_, _, _, _, he⟩
       · rw [hf.1]; exact h
       · rw [he]; exact wf_saveSub c (wf_saveSub c h _ _) _ _
     · intro s f t e amt h
-      rcases execTransferFrozen_cases c s f t e amt with hf | ⟨_, _, _, he⟩
+      rcases execTransferFrozen_cases c s f t e amt with hf | ⟨_, _, _, _, he⟩
       · rw [hf.1]; exact h
       · rw [he]; exact wf_saveSub c (wf_saveSub c h _ _) _ _
     · intro s a e amt _ h
@@ -218,13 +218,13 @@ theorem basic_ok_or_failed_execActive (s : State σ κ) (a e : σ) (amt : Int) :
 
 theorem basic_ok_or_failed_execTransfer (s : State σ κ) (f t e : σ) (amt : Int) :
     Failed (execTransfer c s f t e amt) s ∨ (execTransfer c s f t e amt).2 = .ok := by
-  rcases execTransfer_cases c s f t e amt with h | ⟨_, _, _, he⟩
+  rcases execTransfer_cases c s f t e amt with h | ⟨_, _, _, _, he⟩
   · exact Or.inl h
   · right; rw [he]
 
 theorem basic_ok_or_failed_execTransferFrozen (s : State σ κ) (f t e : σ) (amt : Int) :
     Failed (execTransferFrozen c s f t e amt) s ∨ (execTransferFrozen c s f t e amt).2 = .ok := by
-  rcases execTransferFrozen_cases c s f t e amt with h | ⟨_, _, _, he⟩
+  rcases execTransferFrozen_cases c s f t e amt with h | ⟨_, _, _, _, he⟩
   · exact Or.inl h
   · right; rw [he]
 
@@ -256,13 +256,13 @@ theorem main_execActive (s : State σ κ) (a e : σ) (amt : Int) :
 
 theorem main_execTransfer (s : State σ κ) (f t e : σ) (amt : Int) :
     (execTransfer c s f t e amt).1.main = s.main := by
-  rcases execTransfer_cases c s f t e amt with h | ⟨_, _, _, he⟩
+  rcases execTransfer_cases c s f t e amt with h | ⟨_, _, _, _, he⟩
   · rw [h.1]
   · rw [he]; rfl
 
 theorem main_execTransferFrozen (s : State σ κ) (f t e : σ) (amt : Int) :
     (execTransferFrozen c s f t e amt).1.main = s.main := by
-  rcases execTransferFrozen_cases c s f t e amt with h | ⟨_, _, _, he⟩
+  rcases execTransferFrozen_cases c s f t e amt with h | ⟨_, _, _, _, he⟩
   · rw [h.1]
   · rw [he]; rfl
 
@@ -335,12 +335,12 @@ theorem step_err_unchanged (s : State σ κ) (op : Op σ) (he : (step c s op).2.
     · right; show (execActive c s a e amt).2 = .ok; rw [h]
   | execTransfer f t e amt =>
     refine failed_of_isErr ?_ he
-    rcases execTransfer_cases c s f t e amt with h | ⟨_, _, _, h⟩
+    rcases execTransfer_cases c s f t e amt with h | ⟨_, _, _, _, h⟩
     · exact Or.inl h
     · right; show (execTransfer c s f t e amt).2 = .ok; rw [h]
   | execTransferFrozen f t e amt =>
     refine failed_of_isErr ?_ he
-    rcases execTransferFrozen_cases c s f t e amt with h | ⟨_, _, _, h⟩
+    rcases execTransferFrozen_cases c s f t e amt with h | ⟨_, _, _, _, h⟩
     · exact Or.inl h
     · right; show (execTransferFrozen c s f t e amt).2 = .ok; rw [h]
   | execDepositFrozen a e amt =>
